@@ -31,6 +31,9 @@ Inductive instr :=
 | CallLoad (t : ty) (base : nat) (* call of the import stateful.load_<t>(id, init); in this model the
                                     host's table lives after the locals: cell pair base+2*id *)
 | CallStore (t : ty) (base : nat)(* call of the import stateful.store_<t>(id, value) *)
+| CallFn (k : nat) (t : vt) (body : list instr)
+                                 (* call of the k-th function of the module, a helper of type
+                                    [t t] -> [t]; its body is carried along for execution *)
 | If (bt : option vt) (th : list instr) (el : option (list instr))
 | Block (body : list instr)      (* block (empty type) … end *)
 | Loop (body : list instr)       (* loop (empty type) … end *)
@@ -143,6 +146,7 @@ Section Encode.
     | CallPow t => 16 :: uleb5 (index_of (IPow t) imports 0)
     | CallLoad t _ => 16 :: uleb5 (index_of (ILoad t) imports 0)
     | CallStore t _ => 16 :: uleb5 (index_of (IStore t) imports 0)
+    | CallFn k _ _ => 16 :: uleb5 (Z.of_nat (length imports + k))
     | If bt th el =>
         4 :: (match bt with None => 64 | Some t => vt_byte t end) ::
         (fix go (l : list instr) : list Z :=
@@ -183,7 +187,8 @@ Record wfunc := {
   w_params : list vt;
   w_locals : list vt;
   w_result : vt;
-  w_body : list instr
+  w_body : list instr;
+  w_pad : nat          (* model only: unused cells between the locals and the stateful host table *)
 }.
 
 (* first-use order of the pow imports (resolve.Finalize registers imports in emission order) *)
@@ -207,8 +212,15 @@ Fixpoint imports_i (i : instr) (acc : list imp) : list imp :=
 Definition imports_l (l : list instr) : list imp := fold_left (fun a i => imports_i i a) l [].
 
 (* the code-section entry of the function: locals, body, end *)
-Definition enc_func (f : wfunc) : list Z :=
-  enc_locals (w_locals f) ++ enc_l (imports_l (w_body f)) (w_body f) ++ [11].
+Definition enc_func_in (imports : list imp) (f : wfunc) : list Z :=
+  enc_locals (w_locals f) ++ enc_l imports (w_body f) ++ [11].
+Definition enc_func (f : wfunc) : list Z := enc_func_in (imports_l (w_body f)) f.
+
+(* a module: its functions in index order (helpers first); imports in first-use order over all of them *)
+Definition module_imports (fs : list wfunc) : list imp :=
+  fold_left (fun acc f => fold_left (fun a i => imports_i i a) (w_body f) acc) fs [].
+Definition enc_module (fs : list wfunc) : list (list Z) :=
+  map (enc_func_in (module_imports fs)) fs.
 
 (* ------------------------------------------------------------------ validation *)
 (* operand stack type: known types on top of a possibly polymorphic bottom (after return /
@@ -266,6 +278,7 @@ Section Validate.
     | CallLoad t _ => vop2 (VTI W32) (vt_of t) (vt_of t) s
     | CallStore t _ =>
         match vpop (vt_of t) s with Some s1 => vpop (VTI W32) s1 | None => None end
+    | CallFn _ t _ => vop2 t t t s
     | If bt th el =>
         match vpop (VTI W32) s with
         | None => None
@@ -520,6 +533,25 @@ Section Exec.
             end
         | _ => OStuck
         end
+    | CallFn _ _ body =>
+        match st with
+        | b :: a :: st' =>
+            let go := fix go (l : list instr) (st ls : list wval) : outcome :=
+                        match l with
+                        | [] => ONorm st ls
+                        | x :: r => match exec_i x st ls with
+                                    | ONorm st1 ls1 => go r st1 ls1
+                                    | o => o
+                                    end
+                        end in
+            match go body [] [a; b] with           (* the callee's locals are its two parameters *)
+            | ORet v _ | ONorm (v :: _) _ => ONorm (v :: st') ls
+            | OTrap k => OTrap k
+            | OFuel => OFuel
+            | _ => OStuck
+            end
+        | _ => OStuck
+        end
     | If bt th el =>
         match st with
         | WI W32 c :: st' =>
@@ -625,8 +657,9 @@ Section Exec.
     | [] => []
     | args :: rest =>
         let nl := length (w_params f ++ w_locals f) in
-        match exec_l (w_body f) [] (args ++ map zero_w (w_locals f) ++ cells) with
-        | ONorm (v :: _) ls' | ORet v ls' => Some (WOk v) :: wasm_calls_from f (skipn nl ls') rest
+        match exec_l (w_body f) [] (args ++ map zero_w (w_locals f) ++ repeat (WI W32 0) (w_pad f) ++ cells) with
+        | ONorm (v :: _) ls' | ORet v ls' =>
+            Some (WOk v) :: wasm_calls_from f (skipn (nl + w_pad f) ls') rest
         | ONorm [] _ | OBr _ _ | OStuck => Some WStuck :: map (fun _ => None) rest
         | OTrap k => Some (WTrap k) :: map (fun _ => None) rest
         | OFuel => Some WFuel :: map (fun _ => None) rest
@@ -634,7 +667,7 @@ Section Exec.
     end.
   Definition wasm_calls (f : wfunc) (calls : list (list wval)) : list (option wres) :=
     let nl := length (w_params f ++ w_locals f) in
-    wasm_calls_from f (repeat (WI W32 0) (2 * nl)) calls.
+    wasm_calls_from f (repeat (WI W32 0) (2 * (nl + w_pad f))) calls.
 End Exec.
 
 Arguments WI {fo}. Arguments WF {fo}.
